@@ -609,6 +609,84 @@ func R19(group string) Rule {
 			if ci, isIn := core.Resolve(listV).(ssa.Instruction); isIn {
 				sameFn = ci.Parent() == selStore.Parent()
 			}
+			// the selector is an emptiness test on every path: each of its possible values is a constant or
+			// (the negation of) isEmpty of a row — the stored row without a predicate, the filtered copy with
+			// one.  "The row was found", "the filter said match" alone are not "yields at least one cell".
+			var emptinessOnly func(v ssa.Value, depth int) bool
+			emptinessOnly = func(v ssa.Value, depth int) bool {
+				v = core.Resolve(v)
+				if depth > 6 {
+					return false
+				}
+				if _, isK := core.ConstBool(v); isK {
+					return true
+				}
+				switch x := v.(type) {
+				case *ssa.Phi:
+					for _, e := range x.Edges {
+						if !emptinessOnly(e, depth+1) {
+							return false
+						}
+					}
+					return true
+				case *ssa.UnOp:
+					if x.Op == token.NOT {
+						return emptinessOnly(x.X, depth+1)
+					}
+					if x.Op == token.MUL {
+						if cell := core.CellOf(x.X); cell != nil {
+							sts := core.StoresTo(cell)
+							for _, st := range sts {
+								if !emptinessOnly(st.Val, depth+1) {
+									return false
+								}
+							}
+							return len(sts) > 0
+						}
+					}
+					return false
+				case *ssa.Call:
+					g := x.Call.StaticCallee()
+					if g != nil && core.FuncName(g) == "isEmpty" && core.PkgPathOf(g) == core.PkgBttest {
+						return true
+					}
+					if g != nil && g.Blocks != nil && core.PkgPathOf(g) == core.PkgBttest && g.Signature.Results().Len() == 1 {
+						for _, r := range returnsIn(g) {
+							for _, rv := range returnValues(r.Results[0]) {
+								if !emptinessOnly(rv, depth+1) {
+									return false
+								}
+							}
+						}
+						return true
+					}
+					return false
+				case *ssa.Extract:
+					call, isCall := x.Tuple.(*ssa.Call)
+					if !isCall {
+						return false
+					}
+					g := call.Call.StaticCallee()
+					if g == nil || g.Blocks == nil || core.PkgPathOf(g) != core.PkgBttest || core.FuncName(g) == "filterRow" {
+						return false
+					}
+					for _, r := range returnsIn(g) {
+						if x.Index >= len(r.Results) {
+							return false
+						}
+						for _, rv := range returnValues(r.Results[x.Index]) {
+							if !emptinessOnly(rv, depth+1) {
+								return false
+							}
+						}
+					}
+					return true
+				}
+				return false
+			}
+			if isE := P.Func(core.PkgBttest, "isEmpty"); isE != nil && isE.Blocks != nil {
+				c.Check(emptinessOnly(sel, 0), "R19", "cam/selector-is-an-emptiness-test", selStore.Pos(), "predicate_matched is, on every path, (the negation of) isEmpty of the row or of the filtered copy", "predicate_matched is not decided by an emptiness test on every path (it is the lookup's 'found' flag, or the filter's own verdict): a row without cells, or a predicate whose filter strips every cell, selects the true branch")
+			}
 			okSel := cond != nil && sameFn && core.Resolve(cond) == core.Resolve(sel)
 			c.Check(okSel, "R19", "cam/selector-identity", selStore.Pos(), "the value reported as predicate_matched is the very value that selects the branch", "predicate_matched and the branch selector are different values: the response can report one branch while the other is applied")
 			c.Check(okPol, "R19", "cam/selector-polarity", acalls[0].Pos(), "true_mutations is chosen on the true edge, false_mutations otherwise", "the branch lists are swapped or something other than the request's two lists is applied")
